@@ -90,6 +90,15 @@ def make_shards(tier, ops=None, regimes=("R1", "R3"), typed=True, prefix=""):
             for sh in shapes(3):
                 for order in topo_orders(sh)[1:]:
                     out.append({"name": "%s%s-R1-%s-o%s" % (prefix, op, shape_str(sh), "".join(map(str, order))), "op": op, "shape": list(sh), "regime": "R1", "order": list(order)})
+    if tier != "quick":
+        # two-step histories: a state-shaping first step, then the operation under test
+        for first in MU.FIRST_OPS:
+            for op in ("add", "move", "remove", "set_data", "copy_node"):
+                if ops and op not in ops:
+                    continue
+                for n in (2, 3):
+                    for sh in shapes(n):
+                        out.append({"name": "%s2step-%s+%s-%s" % (prefix, first, op, shape_str(sh)), "op": op, "first": first, "shape": list(sh), "regime": "R1", "cost": 15})
     if typed:
         NT = 2 if tier == "quick" else 3
         for op in MU.TYPED_OPS:
@@ -118,7 +127,7 @@ def bounds(tier):
         "other_tree_shapes": [shape_str(o) for o in OTHER_SHAPES],
         "labels": "unbounded ints >= 1",
         "before": "None, False, True, ints -1..n+1, every node",
-        "steps": 1,
+        "steps": "1 (quick); thorough adds two-step histories (first step in move/remove/remove(keep_children)/set_data(with_clones), pre-state <= 3 nodes) and permuted registration orders",
         "outside": "trees with more nodes; falsy data/ids; histories leaving the node bound",
     }
 
